@@ -25,9 +25,9 @@ class BuildError(Exception):
         self.detail = detail
 
 
-def translate(src, out, directives=None, cplus=False, options=None, timeout=600):
+def translate(src, out, directives=None, cplus=False, options=None, timeout=600, global_options=None):
     spec = {"src": src, "out": out, "directives": directives or {}, "cplus": cplus,
-            "options": options or {}}
+            "options": options or {}, "global_options": global_options or {}}
     p = subprocess.run([PY, os.path.join(HERE, "cy_compile.py"), json.dumps(spec)],
                        capture_output=True, text=True, env=base_env(), timeout=timeout)
     line = p.stdout.strip().splitlines()[-1] if p.stdout.strip() else ""
@@ -56,7 +56,7 @@ def cc(c_file, so_file, cflags=None, macros=None, cplus=False, compiler=None, ld
 
 
 def build(name, source, workdir, directives=None, cflags=None, macros=None, cplus=False,
-          compiler=None, ldflags=None, suffix=".pyx", options=None):
+          compiler=None, ldflags=None, suffix=".pyx", options=None, global_options=None):
     """Write source, translate with the compiler under test, compile with gcc.
     Returns path of the .so; raises BuildError."""
     os.makedirs(workdir, exist_ok=True)
@@ -66,7 +66,7 @@ def build(name, source, workdir, directives=None, cflags=None, macros=None, cplu
     c_file = os.path.join(workdir, name + (".cpp" if cplus else ".c"))
     if os.path.exists(c_file):
         os.unlink(c_file)
-    res = translate(src, c_file, directives, cplus, options)
+    res = translate(src, c_file, directives, cplus, options, global_options=global_options)
     if res.get("crash"):
         raise BuildError("cython-crash", res["crash"])
     if not res.get("ok"):
